@@ -124,7 +124,7 @@ def check_tokens(ctx, tabs):
         for trow in tabs["isas"][isa]["tokens"]:
             tcls = trow["cls"]
             size = trow["size"]
-            inits = [0, ctx.rng.getrandbits(size)]
+            inits = [0, ctx.rng.getrandbits(size)] if ctx.thorough else [ctx.rng.getrandbits(size)]
             # pack / unpack
             for bv in inits + [(1 << size) - 1]:
                 impl = "ok " + (tcls.pack(bv).hex() or "-")
